@@ -2348,6 +2348,14 @@ class TupleParser:
         if val is None:
             return None
 
+        if not isinstance(val, str):
+            # The EmbeddedObject attribute was specified on an element whose
+            # value is not a string (e.g. a reference)
+            raise CIMXMLParseError(
+                _format("Embedded object value must be a string, but is {0}",
+                        val.__class__.__name__),
+                conn_id=self.conn_id)
+
         # Perform the un-embedding (may raise XMLParseError)
         tup_tree = xml_to_tupletree_sax(val, "embedded object", self.conn_id)
 
